@@ -1269,6 +1269,8 @@ class Walker:
         F = self.F
         T = self.T
         rng = range_of(F, it)
+        if rng is None and it.get("k") == "MethodCall" and it["name"] == "step_by" and range_of(F, it["recv"]) is not None:
+            rng = range_of(F, it["recv"])
         if rng is not None and pat.get("k") == "PBind":
             lo, hi, incl = rng
             v = ("var", pat["name"], pat["id"])
